@@ -163,6 +163,16 @@ func spaceFromID(id SpaceID) *Space {
 	return s
 }
 
+// keyPrefix is the part of a violation key that names the regime and the
+// parent kind (not the family or the depth: the same defect keeps its key
+// across tiers).
+func (s *Space) keyPrefix() string {
+	if s.Fam.isWay() {
+		return s.Regime.String() + "/way"
+	}
+	return s.Regime.String() + "/relation"
+}
+
 func (s *Space) name() string {
 	return fmt.Sprintf("%s/%s", s.Regime, s.Fam.Name)
 }
